@@ -239,7 +239,8 @@ pub fn scenarios(thorough: bool) -> Vec<Scenario> {
     v.push(tie_scenario("pair-tie", if thorough { 4 } else { 3 }, &[Op::Resolve(1, 0, 0), Op::Resolve(1, 0, 1), Op::Unstage(1)]));
     v.push(three_leaves_scenario("trio-three-leaves", if thorough { 4 } else { 3 }, &[Op::Unstage(0)]));
     v.push(pair_conflict_scenario("pair-edit-hi-vs-delete", 15, 3, &[9], if thorough { 4 } else { 3 }, &[Op::Resolve(1, 0, 0), Op::Resolve(1, 1, 1), Op::Unstage(1)]));
-    v.extend(cross_scenarios(thorough));
+    // depth 2 in both tiers: every pair of operations from every prepared state
+    v.extend(cross_scenarios_depth(2));
     v
 }
 
